@@ -341,6 +341,14 @@ Theorem reader_total_post_current : forall (al : alpha) (s : stream) (post : nat
             exists rs o tail, l = map ORec rs ++ o :: tail /\ is_rec o = false /\ length tail = post.
 Proof. intros al. rewrite parse_record_cur_is_fixed. exact (reader_total_post al). Qed.
 
+(* the other end of the F18 class: as long as error.rs turns Incomplete into a panic (`unreachable!()`;
+   re-read from error.rs on every run) the model has that panic site (TransfacReader.error_from: Panic 3).
+   Should error.rs be hardened to return an error instead, the model is merely stricter than the code
+   (every theorem still excludes Panic 3) and this obligation stays closed. *)
+Theorem error_from_incomplete_is_generated :
+  gen_error_incomplete_panics = true -> error_from (@PIncomplete record) = Panic 3.
+Proof. intros _. reflexivity. Qed.
+
 (* what "handled by the model" means for the one streaming combinator: with the streaming space1
    the parser model does answer Incomplete (and the reader panics: reader_total_streaming_refuted) *)
 Example streaming_space1_is_incomplete :
